@@ -113,6 +113,20 @@ def strategy(tier):
                      prime, sqrtmod, factor)
 
 
+STRONG_PSEUDOPRIMES = [
+    2047, 3277, 4033, 4681, 8321, 15841, 29341, 42799, 49141, 52633, 65281, 74665, 80581, 85489, 88357, 90751,
+    1373653, 1530787, 1987021, 2284453, 3116107, 5173601, 6787327, 11541307, 13694761, 15978007, 16070429, 16879501,
+    25326001, 27509653, 27664033, 28527049, 54029741, 61832377, 66096253, 74927161, 80375707, 95452781,
+    161304001, 960946321, 1157839381, 3215031751, 3697278427, 5764643587, 6770862367, 14386156093, 15579919981,
+    18459366157, 19887974881, 21276028621, 118670087467, 307768373641, 315962312077, 354864744877,
+    2152302898747, 3474749660383, 341550071728321, 3825123056546413051,
+    # Carmichael numbers and neighbours of the usual range thresholds
+    561, 1105, 1729, 2465, 2821, 6601, 8911, 41041, 825265, 321197185, 5394826801, 232250619601, 9746347772161,
+    2046, 2048, 1373652, 1373654, 25326000, 25326002, 3215031750, 3215031752, 4759123141, 1122004669633,
+    4294967295, 4294967297, 18446744073709551557, 18446744073709551556,
+]
+
+
 def enumerate_cases(tier):
     els2 = [[a, b] for a in SMALL for b in SMALL]
     for i, x in enumerate(els2):
@@ -131,6 +145,10 @@ def enumerate_cases(tier):
     for lo in range(0, 200000, 4000):
         yield {"kind": "prime-range", "lo": lo, "hi": lo + 4000}
     yield {"kind": "prime-range", "lo": 200000, "hi": 200001}
+    # composites that pass Miller-Rabin for small base sets (strong pseudoprimes to {2}, {2,3}, {2,3,5}, {2,3,5,7}, ...):
+    # a slip in the base table / range thresholds of a deterministic Miller-Rabin shows up exactly here
+    for i in range(0, len(STRONG_PSEUDOPRIMES), 12):
+        yield {"kind": "prime", "ns": STRONG_PSEUDOPRIMES[i:i + 12]}
     yield {"kind": "sqrtmod-small", "pmax": 160}
 
 
